@@ -4,6 +4,7 @@ mod checks;
 mod fw;
 mod gen;
 mod msggen;
+mod reqgen;
 mod srvgen;
 mod srvrun;
 
